@@ -328,8 +328,8 @@ def run(chk, repo, tier):
                    what='%s: basis names entries with data; matrix square, '
                         'sized to the basis, symmetric, PSD' % rel,
                    found='; '.join(bad[:6]))
-    chk.need('D14.2', npat, 700, 'pattern strings')
-    chk.need('D14.6', nrec, 800, 'correlation records')
+    chk.need('D14.2', npat, 450, 'pattern strings')
+    chk.need('D14.6', nrec, 500, 'correlation records')
     chk.extra.update({'patterns_audited': npat, 'records_audited': nrec,
                       'remap_sources': nremap})
     chk.exhaustive = True
